@@ -3,7 +3,7 @@
   ITERATION SCHEDULE, every outcome accounted for.
 
   `C08_ops_dyn`, `C08_ops_dyn_total`, `C08_image_dyn` (DDProps.C08) assume `AInv false a`, whose
-  manager part `MInv` contains `a.m.sched = []`: the sifting that a method may trigger is covered
+  manager part `AutoMInv` contains `a.m.sched = []`: the sifting that a method may trigger is covered
   for the model's default iteration order only.  The autoref driver (`DD.runA`, DD/AutoDriver.lean)
   runs a protocol line exactly as `DD.stepLine` does: the recorded schedule of the line is put
   into `a.m.sched`, the method runs, what is left of the schedule is dropped.
@@ -20,8 +20,8 @@
 
   Method.  The autoref development is generic in the core operations (`aIte_keeps` : `CoreKeeps`
   of `ite` ⇒ `AKeeps` of `aIte`, …); its only dependence on the schedule is the field
-  `MInv.sched`.  DDProofs/Sched{AutoProofs,AutoTemps,AutoCore,AutoImage,AutoDyn,AutoDynTotal,
-  ImageDynTotal}.lean are those files re-checked in the namespace `DD.S` with `MInv` WITHOUT that
+  `AutoMInv.sched`.  DDProofs/Sched{AutoProofs,AutoTemps,AutoCore,AutoImage,AutoDyn,AutoDynTotal,
+  ImageDynTotal}.lean are those files re-checked in the namespace `DD.S` with `AutoMInv` WITHOUT that
   field (the proofs go through unchanged up to the constructor sites), the core hypotheses coming
   from the every-outcome theorems `*_total_dynK` (DDProofs.DynSchedTotalOps) instead of
   `*_total_dyn`.  `DD.S.AInv` is `AInv` without the clause on the schedule; `runSched_keeps`
